@@ -324,6 +324,13 @@ func unescapeLocationSegment(segment string) string {
 }
 
 func (g *generator) walkRef(schema *schemaparser.Schema) (ast.Type, error) {
+	// a reference is all that the IR keeps of this schema: the bounds written next to
+	// `$ref`, which apply together with the referred schema, would be lost
+	if schema.Minimum != nil || schema.ExclusiveMinimum != nil || schema.Maximum != nil || schema.ExclusiveMaximum != nil ||
+		schema.MultipleOf != nil || schema.MinLength != -1 || schema.MaxLength != -1 {
+		return ast.Type{}, fmt.Errorf("%s: bounds written next to `$ref` are not supported: declare them in the referred schema, or in a schema that combines both with `allOf`", schema.Location)
+	}
+
 	referredKindName := g.definitionNameFromRef(schema)
 
 	if err := g.declareDefinition(referredKindName, schema.Ref); err != nil {
